@@ -466,13 +466,30 @@ type MtreeEntry struct {
 	SHA256      []byte
 }
 
+// mtreeQuote writes a path the way mtree(5) expects it: a word ends at the
+// first whitespace, so every byte that is not plain printable ASCII, and the
+// characters that have a meaning of their own (backslash, double quote and
+// the number sign), are written as a backslash and three octal digits.
+func mtreeQuote(s string) string {
+	var b strings.Builder
+	for i := 0; i < len(s); i++ {
+		c := s[i]
+		if c <= ' ' || c >= 0x7f || c == '\\' || c == '"' || c == '#' {
+			fmt.Fprintf(&b, "\\%03o", c)
+			continue
+		}
+		b.WriteByte(c)
+	}
+	return b.String()
+}
+
 func (me *MtreeEntry) WriteTo(w io.Writer) (int64, error) {
 	switch me.Type {
 	case files.TypeDir, files.TypeImplicitDir:
 		n, err := fmt.Fprintf(
 			w,
 			"./%s time=%d.0 mode=%o type=dir\n",
-			me.Destination,
+			mtreeQuote(me.Destination),
 			me.Time,
 			me.Mode,
 		)
@@ -481,17 +498,17 @@ func (me *MtreeEntry) WriteTo(w io.Writer) (int64, error) {
 		n, err := fmt.Fprintf(
 			w,
 			"./%s time=%d.0 mode=%o type=link link=%s\n",
-			me.Destination,
+			mtreeQuote(me.Destination),
 			me.Time,
 			me.Mode,
-			me.LinkSource,
+			mtreeQuote(me.LinkSource),
 		)
 		return int64(n), err
 	default:
 		n, err := fmt.Fprintf(
 			w,
 			"./%s time=%d.0 mode=%o size=%d type=file md5digest=%x sha256digest=%x\n",
-			me.Destination,
+			mtreeQuote(me.Destination),
 			me.Time,
 			me.Mode,
 			me.Size,
